@@ -13,7 +13,7 @@ interleaving at line granularity with the cache operations atomic (they hold the
  --what faults   (C03)  the same schedules with every pattern of <= k failing exists / create / write
                         calls: each drained batch is (a) written once, complete, under its own
                         metric, after exists() said yes, and counted, or (b) its failed write is
-                        counted and logged, or (c) counted as a dropped create when exists() said
+                        counted as an error or logged as one (and not as committed), or (c) counted as a dropped create when exists() said
                         no, or (d) the failure of exists() is logged by writeForever; no write
                         without a batch, none for another metric, no datapoint in two write calls
 """
@@ -273,7 +273,7 @@ def judge(cfg, log, stored, cache, faults):
       return out
     if first_exists[2] == 'raised':
       acc = until_backend(after)
-      if writes or not any(e[0] == 'log.err' for e in acc):
+      if writes or not any(e[0] == 'log.err' or (e[0] == 'inc' and e[1] == 'errors') for e in acc):
         return ('exists_failure_reported', 'batch %r of %r: exists() failed; writes=%r, then %r' % (dps, m, writes, acc))
       continue
     if first_exists[2] is False:
@@ -301,7 +301,7 @@ def judge(cfg, log, stored, cache, faults):
     incs = [e[1:] for e in acc if e[0] == 'inc']
     errs = [e for e in acc if e[0] == 'log.err']
     if w[3] == 'raised':
-      if incs.count(('errors', 1)) != 1 or not errs:
+      if (incs.count(('errors', 1)) < 1 and not errs) or any(i[0] == 'committedPoints' for i in incs):
         return ('write_failure_reported', 'failed write of %r: then %r' % (m, acc))
     else:
       if not w[4]:
